@@ -46,29 +46,70 @@ def sh(cmd, cwd=None, env=None, timeout=None, check=True, input=None):
 
 def run_restartable(cmd_prefix, cases, work, tag, timeout=3600):
     """Run a `vh` batch command (runBatch in the harness): `cmd_prefix -in <cases> -out <file>`.
-    The harness exits with status 3 right after reporting a case that hangs inside the real code; the
-    command is then restarted on the cases that have not been reported. Returns the records in case order."""
+
+    The harness exits with status 3 right after reporting a case that hangs inside the real code; the command is then
+    restarted on the cases that have not been reported.  If the process dies of a Go runtime FATAL error (stack overflow,
+    concurrent map writes: cannot be recovered in-process) the unreported cases are bisected until the single case that
+    kills the process is found; its record is {"id":.., "fatal": <first lines of the runtime's message>}.
+    Returns the records in case order."""
     byid = {}
-    todo = list(cases)
-    rounds = 0
     t0 = time.time()
-    while todo:
-        rounds += 1
-        cpath, opath = work.path("%s.%d.cases.ndjson" % (tag, rounds)), work.path("%s.%d.out.ndjson" % (tag, rounds))
+    counter = [0]
+
+    def attempt(todo):
+        counter[0] += 1
+        if counter[0] > 400:
+            raise ToolError("too many restarts of the harness (%d)" % counter[0])
+        cpath, opath = work.path("%s.%d.cases.ndjson" % (tag, counter[0])), work.path("%s.%d.out.ndjson" % (tag, counter[0]))
         write_ndjson(cpath, todo)
         if os.path.exists(opath):
             os.remove(opath)
         p = sh(cmd_prefix + ["-in", cpath, "-out", opath], timeout=max(60, timeout - (time.time() - t0)), check=False)
-        got = read_ndjson(opath) if os.path.exists(opath) else []
+        got = []
+        if os.path.exists(opath):
+            try:
+                got = read_ndjson(opath)
+            except Exception:
+                got = []          # a torn last line after a crash
+                with open(opath) as f:
+                    for line in f:
+                        try:
+                            got.append(json.loads(line))
+                        except Exception:
+                            pass
         for r in got:
             byid[r["id"]] = r
-        if p.returncode == 0:
-            break
-        if p.returncode != 3 or not got:
-            raise ToolError("harness failed (%d): %s\n%s" % (p.returncode, " ".join(cmd_prefix), p.stderr[-3000:]))
-        todo = [c for c in todo if c["id"] not in byid]
-        if rounds > 200:
-            raise ToolError("too many hangs in the real code (%d restarts)" % rounds)
+        for pth in (cpath, opath):
+            if os.path.exists(pth) and not os.environ.get("VERIF_KEEP"):
+                os.remove(pth)
+        return p
+
+    def process(todo):
+        while todo:
+            p = attempt(todo)
+            rest = [c for c in todo if c["id"] not in byid]
+            if p.returncode == 0:
+                if rest:
+                    raise ToolError("harness did not report cases %s" % [c["id"] for c in rest[:5]])
+                return
+            if p.returncode == 3 and len(rest) < len(todo):
+                todo = rest
+                continue
+            fatal = "fatal error:" in p.stderr or "goroutine stack exceeds" in p.stderr or "runtime: " in p.stderr
+            if not fatal:
+                raise ToolError("harness failed (%d): %s\n%s" % (p.returncode, " ".join(cmd_prefix), p.stderr[-3000:]))
+            if len(rest) == 1:
+                msg = [l for l in p.stderr.splitlines() if l.startswith(("fatal error:", "runtime:", "panic:"))][:3]
+                byid[rest[0]["id"]] = {"id": rest[0]["id"], "src": rest[0].get("src"), "fatal": " / ".join(msg) or p.stderr[:300]}
+                return
+            if not rest:
+                return
+            mid = len(rest) // 2
+            process(rest[:mid])
+            process(rest[mid:])
+            return
+
+    process(list(cases))
     missing = [c["id"] for c in cases if c["id"] not in byid]
     if missing:
         raise ToolError("harness did not report cases %s" % missing[:5])
